@@ -29,23 +29,28 @@ def splitSign (s : Bytes) : Bool × Bytes :=
   | c :: r => if c = c_minus then (true, r) else if c = c_plus then (false, r) else (false, s)
   | [] => (false, [])
 
+/-- `0x`/`0X` followed by a hex digit, taken as a prefix when the base is 0 or 16 -/
+def hexPrefix (base : Nat) (s2 : Bytes) : Bool :=
+  (base == 0 || base == 16) &&
+    (match s2 with
+     | z :: x :: h :: _ => z == 48 && (x == 120 || x == 88) && isHex h
+     | _ => false)
+
+/-- digits of base `b` from `s3`, sign applied, clamped to `long`; `s` is the whole input -/
+def strtolCore (neg : Bool) (b : Nat) (s s3 : Bytes) : StrtolOut :=
+  let r := takeDigits b 0 s3
+  if r.2.length == s3.length then ⟨0, s, false⟩      -- no digits: no conversion
+  else if neg then
+    (if r.1 > 9223372036854775808 then ⟨longMin, r.2, true⟩ else ⟨-(r.1 : Int), r.2, false⟩)
+  else
+    (if r.1 > 9223372036854775807 then ⟨longMax, r.2, true⟩ else ⟨(r.1 : Int), r.2, false⟩)
+
 /-- glibc `strtol(s, &end, base)` for base 0 or 2..36 -/
 def strtolC (s : Bytes) (base : Nat) : StrtolOut :=
-  let s1 := s.dropWhile isSpaceC
-  let (neg, s2) := splitSign s1
-  let hexPrefix : Bool :=
-    (base == 0 || base == 16) &&
-      (match s2 with
-       | z :: x :: h :: _ => z == 48 && (x == 120 || x == 88) && isHex h
-       | _ => false)
-  let b : Nat := if hexPrefix then 16 else if base == 0 then (if s2.head? == some 48 then 8 else 10) else base
-  let s3 := if hexPrefix then s2.drop 2 else s2
-  let (n, rest) := takeDigits b 0 s3
-  if rest.length == s3.length then ⟨0, s, false⟩      -- no digits: no conversion
-  else if neg then
-    (if n > 9223372036854775808 then ⟨longMin, rest, true⟩ else ⟨-(n : Int), rest, false⟩)
-  else
-    (if n > 9223372036854775807 then ⟨longMax, rest, true⟩ else ⟨(n : Int), rest, false⟩)
+  let p := splitSign (s.dropWhile isSpaceC)
+  let hp := hexPrefix base p.2
+  let b : Nat := if hp then 16 else if base == 0 then (if p.2.head? == some 48 then 8 else 10) else base
+  strtolCore p.1 b s (if hp then p.2.drop 2 else p.2)
 
 /-- `cfg_digits_ok` of confuse.c -/
 def digitsOk (s : Bytes) (radix : Nat) : Bool :=
@@ -59,23 +64,26 @@ def digitsOk (s : Bytes) (radix : Nat) : Bool :=
 inductive ConvErr | invalid | range | null
 deriving DecidableEq, Repr, Inhabited
 
-/-- radix guess + full-match + range check of `cfg_setopt()` case CFGT_INT -/
-def convInt (value : Bytes) : Except ConvErr Int :=
-  let (radix, intStr) : Nat × Bytes :=
-    match value with
-    | z :: r =>
-      if z = 48 then
-        (match r with
-         | x :: r2 => if x = 98 then (2, r2) else if x = 120 then (16, r2) else (8, r)
-         | [] => (8, r))
-      else (0, value)
-    | [] => (0, value)
+/-- the radix guess of `cfg_setopt()`: (radix handed to strtol, where the digits start) -/
+def radixOf (value : Bytes) : Nat × Bytes :=
+  match value with
+  | 48 :: 98 :: r2 => (2, r2)
+  | 48 :: 120 :: r2 => (16, r2)
+  | 48 :: r => (8, r)
+  | _ => (0, value)
+
+/-- digit check + `strtol` full-match + range check -/
+def convIntWith (radix : Nat) (intStr : Bytes) : Except ConvErr Int :=
   if !digitsOk intStr radix then .error .invalid
   else
     let o := strtolC intStr radix
     if !o.rest.isEmpty then .error .invalid
     else if o.erange then .error .range
     else .ok o.val
+
+/-- `cfg_setopt()` case CFGT_INT without a parse callback -/
+def convInt (value : Bytes) : Except ConvErr Int :=
+  convIntWith (radixOf value).1 (radixOf value).2
 
 /-- `cfg_parse_boolean` -/
 def convBool (value : Bytes) : Option Bool :=
@@ -270,12 +278,13 @@ def Dbl.isFinite : Dbl → Bool
   | .fin _ _ _ => true
   | _ => false
 
+def leadingSpace (v : Bytes) : Bool := match v with | c :: _ => isSpaceC c | [] => false
+
 /-- `cfg_setopt()` case CFGT_FLOAT (after the strictness fix); result is the bit pattern -/
 def convFloat (value : Bytes) : Except ConvErr Nat :=
-  let o := strtodC value
-  if !o.rest.isEmpty || !o.consumed || (match value with | c :: _ => isSpaceC c | [] => false) then .error .invalid
-  else if o.erange then .error .range
-  else if !o.val.isFinite then .error .invalid
-  else .ok o.val.toBits
+  if !(strtodC value).rest.isEmpty || !(strtodC value).consumed || leadingSpace value then .error .invalid
+  else if (strtodC value).erange then .error .range
+  else if !(strtodC value).val.isFinite then .error .invalid
+  else .ok (strtodC value).val.toBits
 
 end Confuse
